@@ -315,5 +315,10 @@ theorem equals_full {t : Ty} (hc : capFree t = true) {a b : Payload} (wa : W t a
     equalsP]
   exact equalsFuel_ok' _ t a b hc wa wb (by omega) (by omega)
 
+theorem W.of {t : Ty} {p : Payload} (h : Payload.deepMember t p = true) : W t p := by
+  simp only [Payload.deepMember, Bool.and_eq_true, Bool.not_eq_true'] at h
+  obtain ⟨⟨⟨⟨⟨a, b⟩, c⟩, d⟩, e⟩, f⟩ := h
+  exact ⟨⟨⟨a, b, c⟩, d, e⟩, f⟩
+
 end D03b
 end CtyModel
